@@ -103,13 +103,13 @@ KNOWN_ALIASES = {
 # <= 1/20 of the smallest effect seen in a mutant run. DESIGN proposed 5e-6 for batch invariance from a 50-point probe
 # (<= 6e-7); the full lattice reaches 1.1e-6 for parallax (float32 phase ramps of up to ~100 rad evaluated in differently
 # shaped einsum batches), so the 20x rule gives 3e-5.
-TOL_BATCH = 3e-5  # observed: prlx 1.06e-6, mf 5.0e-7, obf 3.7e-7, ssb 3.5e-7, icom 0; mutants: power of last batch only / wrong gradient rows > 1
+TOL_BATCH = 3e-5  # observed: prlx 1.06e-6, mf 5.0e-7, obf 4.6e-7, ssb 3.5e-7, icom 0; mutants: power of last batch only / wrong gradient rows > 1
 TOL_LIN = 5e-5  # seeded pairs, relative to max|R(2x-3y)|; observed 1.9e-6; bound by the 20x rule (no linearity mutant planned)
 TOL_BASIS = 2e-4  # R(x) vs sum_j x_j R(e_j) over up to 525 float32 basis responses; observed 7.0e-6
 TOL_RECOMB = 4e-5  # observed 8.7e-7; mutants: wrong index mapping / num_bf normalisation 0.13..1.9
 TOL_ANALYTIC = 2e-4  # observed 6.1e-6 (float32 phase ramp); mutants: num_bf normalisation 0.16..0.33, ramp sign > 1, rotation sign > 0.8, DC kept > 3
 TOL_FILTER = 4e-5  # cross-kernel envelope relation, relative to the largest product; observed 9.0e-7; envelope twice 6e-2..9e-2
-TOL_OVERRIDE = 3e-5  # override_* vs constructor hyper-parameters, run with another batch size: same noise as TOL_BATCH; observed 6.9e-7
+TOL_OVERRIDE = 3e-5  # override_* vs constructor hyper-parameters, run with another batch size: same noise as TOL_BATCH; observed 8.6e-7
 CONTROL_MIN = 1e-3  # a two-pass recombination residual above this counts as "violates" (observed minimum over the lattice: obf 1.6e-2, mf 2.4e-2)
 
 
@@ -378,10 +378,7 @@ def _check_point(t, env, kv, up, filt, sub):
     if ref.shape != want_shape or not np.all(np.isfinite(ref)):
         t.fail({"relation": "finite_result_of_expected_shape", **kclass(kv)}, dict(pt, kind="point"), f"corrected_stack shape {ref.shape} (expected {want_shape}), finite={bool(np.all(np.isfinite(ref)))} at {pt}")
         return bf, ref
-    if sub != "full":
-        # passing the construction mask explicitly == default path is covered by sub == 'full' below
-        pass
-    else:
+    if sub == "full":  # passing the construction mask explicitly == the default path
         o = recon(F, kv, up, filt, env.arrays["full"], None)
         t.case(key=["explicit_full_mask", pt], nontrivial=nz)
         if not np.array_equal(o, ref):
@@ -589,8 +586,9 @@ def basis_config(t, env, kv, up, filt, resp=None):
     return worst
 
 
-def w_basis(item, seed=0, filters=("none",), ups=(1,)):
-    maskname, abername, rot, kvi = item
+def w_basis(item, seed=0, filters=("none",)):
+    maskname, abername, rot, kvi, up_ = item
+    ups = (up_,)
     t = Tally()
     env = Env(SHAPES[0], maskname, abername, rot, seed)
     kv = KVARIANTS[kvi]
@@ -656,7 +654,9 @@ def run(ctx):
         "filters_qhigh_qlow": {k: list(FILTERS[k]) for k in filters},
         "batch_sizes": "every integer 1..num_bf(sub-mask) and None, at every point",
     }
-    items = list(itertools.product(shapes, masks, list(ABERS), ROTS, range(len(KVARIANTS)), UPS))
+    abers = [a for a in ABERS if a != "defocus"] if q else list(ABERS)  # quick: defocus alone is implied by defocus+astig
+    ctx.coverage["alphabet"]["aberrations"] = {a: ABERS[a] for a in abers}
+    items = list(itertools.product(shapes, masks, abers, ROTS, range(len(KVARIANTS)), UPS))
     # simplest first (small mask, no aberrations, upsampling 1): the failures kept per class are then the simplest points.
     # Items cost 0.2-3 s each, so the order does not matter for the pool balance.
     items.sort(key=lambda it: (len(det_mask(it[1])[1]), it[5], list(ABERS).index(it[2]), it[3], it[0][0] * it[0][1], it[4]))
@@ -667,10 +667,10 @@ def run(ctx):
     b_masks = ["disc5"] if q else masks
     b_abers = ["none", "defocus+astig+coma+Cs"] if q else list(ABERS)
     b_filters = ("none", "both") if q else tuple(FILTERS)
-    b_items = list(itertools.product(b_masks, b_abers, ROTS, range(len(KVARIANTS))))
-    b_items.sort(key=lambda it: -len(det_mask(it[0])[1]))
-    ctx.coverage["bounds"]["delta_basis"] = {"scan_shape": list(SHAPES[0]), "masks": b_masks, "aberrations": b_abers, "filters": list(b_filters), "upsampling": UPS, "configs": len(b_items) * len(b_filters) * len(UPS)}
-    ctx.pmap(w_basis, b_items, chunk=1, label="delta basis", seed=ctx.seed, filters=b_filters, ups=tuple(UPS))
+    b_items = list(itertools.product(b_masks, b_abers, ROTS, range(len(KVARIANTS)), UPS))
+    b_items.sort(key=lambda it: (-len(det_mask(it[0])[1]), -it[4]))  # expensive first: items cost 2-12 s
+    ctx.coverage["bounds"]["delta_basis"] = {"scan_shape": list(SHAPES[0]), "masks": b_masks, "aberrations": b_abers, "filters": list(b_filters), "upsampling": UPS, "configs": len(b_items) * len(b_filters)}
+    ctx.pmap(w_basis, b_items, chunk=1, label="delta basis", seed=ctx.seed, filters=b_filters)
 
     ex = ctx.tally.extra
     if ex.get("weight_seam_missing"):
